@@ -37,7 +37,7 @@ VI_CMDS = ["x", "X", "s", "S", "dd", "cc", "yy", "Y", "D", "C", "p", "P", "u", "
            "i", "a", "I", "A", "o", "O", "v", "V", "<c-v>", "<c-a>", "<c-x>", "zz", "zt", "zb", ">>", "<<",
            "/a<c-m>", "?o<c-m>", "/zz<c-m>", "/<escape>", "<c-o>", "<c-k>a:", "<c-k>", "<c-t>", "<c-d>", "<c-w>",
            "<c-u>", "<c-e>", "<c-y>", "<c-n>", "<c-p>", "<tab>", "<s-tab>", "<c-l>", "<insert>", "<delete>",
-           "qa", "q", "@a", "@@", "\"a", "\"ap", "\"b", "<c-x><c-l>", "<c-x><c-f>", "<pageup>", "<pagedown>"]
+           "qa", "q", "@a", "@@", "<c-v>jI", "<c-v>jlA", "<c-v>jjI", "<c-v>kA", "<c-v>I", "\"a", "\"ap", "\"b", "<c-x><c-l>", "<c-x><c-f>", "<pageup>", "<pagedown>"]
 EMACS_CMDS = ["<c-a>", "<c-e>", "<c-b>", "<c-f>", "<c-n>", "<c-p>", "<c-k>", "<c-u>", "<c-w>", "<c-y>", "<c-t>",
               "<c-d>", "<c-h>", "<c-@>", "<c-g>", "<c-_>", "<c-o>", "<c-q>x", "<c-r>a", "<c-s>o", "<c-m>", "<c-j>",
               "<c-l>", "<c-x><c-x>", "<c-x><c-u>", "<c-x>(", "<c-x>)", "<c-x>e", "<c-x>r", "<c-x>ry", "<c-]>a",
@@ -79,7 +79,7 @@ def rand_count(rng):
         return ""
     if r < 0.9:
         return str(rng.choice([1, 2, 3, 5, 9, 10, 20]))
-    return rng.choice(["0", "00", "999999", "1000000", "12345678"])
+    return rng.choice(["0", "00", "300", "1000000", "12345678"])
 
 
 def rand_keys(rng, cfg, all_keys, maxlen=60):
